@@ -18,6 +18,7 @@
 import SoyVerif.Ops.Common
 import SoyVerif.Ops.Check
 import SoyVerif.Props.C04d
+import SoyVerif.Props.C04e
 
 namespace SoyVerif.Ops.JsSem
 open SoyVerif SoyVerif.Ops SoyVerif.Model SoyVerif.Model.JsGen SExp
@@ -54,25 +55,18 @@ def findTemplate (name : Bytes) : List Cmd → Autoescape → Option (Block × A
 
 def sOutput : Bytes := b!"output"
 
-/-- the callee oracle of Spec/JsStmt for the compiled files: the generated function `name` — the statements of the
-    template's body (translated from a fresh scope; the names' counter does not matter to their meaning), run from
-    `opt_data` = the data object and `output = ''` — returns its output; `depth` bounds the nesting of calls -/
+/-- the callee oracle of Spec/JsStmt for the compiled files: Props/C04e `genCall` with the templates looked up in the
+    files — the generated function `name` is `genBody`: the statements of the template's body (translated from a
+    fresh scope; the names' counter does not matter to their meaning), run from `opt_data` = the data object and
+    `output = ''`, return its output; `depth` bounds the nesting of calls -/
 def calleeG (fs : List SoyFile) (fuel : Nat) : Nat → Bytes → JVal → JOut
   | 0, _, _ => .unspec
   | depth + 1, name, .obj kvs =>
     match fs.findSome? (fun f => findTemplate name f.body .unspecified) with
     | none => .unspec
-    | some (.mk _ cmds, ae) =>
-      match toCmds ae sOutput cmds ⟨[[]], 0⟩ with
-      | none => .unspec
-      | some r =>
-        match execStmts libF (calleeG fs fuel depth) fuel r.1 ⟨kvs, none, [(sOutput, .str [])]⟩ with
-        | .ok e =>
-          (match e.locals.find? (·.1 == sOutput) with
-            | some (_, .str out) => .val (.str out)
-            | _ => .unspec)
-        | .error => .error
-        | .unspec => .unspec
+    | some (body, ae) =>
+      SoyVerif.Props.C04e.genBody libF fuel (calleeG fs fuel depth)
+        { (default : Registry.Tmpl) with name := name, body := body, autoescape := ae, nsAutoescape := ae } kvs
   | _ + 1, _, _ => .unspec
 
 def ops : List Op := [
